@@ -100,6 +100,7 @@ fn alphabet(n: usize, tier: Tier) -> Vec<Dev> {
             }));
         }
     }
+    d.extend(crate::devs::syntax_devs(true, true, true, false));
     d
 }
 
